@@ -116,11 +116,17 @@ def build(tf, dtfs, two, length, fill_at, fast, warm, emb, side='long'):
     syms = S.SYMS[:2] if two else S.SYMS[:1]
     # a dip at minute fill_at fills the limit entry placed one tick below at the step before; zig-zag elsewhere keeps exits busy
     word = []
+    # gapping opens (open != previous close): every 7th minute, and on the first minute of the second window of every route timeframe
+    gaps = {i for i in range(1, length) if i % 7 == 3} | {T[t] for t in [tf] + list(dtfs) if T[t] < length}
+    ng = 0
     for i in range(length):
         if fill_at is not None and i == fill_at:
             word.append(progs.SHAPES['D2w'])
         elif fill_at is not None and i == fill_at + 2:
             word.append(progs.SHAPES['U3'])
+        elif i in gaps:
+            ng += 1
+            word.append(progs.SHAPES['GU'] if ng % 2 else progs.SHAPES['GD'])
         else:
             word.append(progs.SHAPES['U1'] if i % 2 == 0 else progs.SHAPES['D1'])
     candles = {syms[0]: S.make_candles(word, base + 50 * tick, tick).tolist()}
@@ -187,6 +193,11 @@ def _session(args):
         if isinstance(got1, str) or got1 is None:
             out['viols'].append(Violation('stored-read-raises', {'sim': sim, 'tf': '1m'}, ident, str(got1)).to_json())
             continue
+        # a stored minute is the input row, with or without the documented normalisation of its open (the fast simulator
+        # normalises only the first minute of a chunk): accept either form row by row
+        raw = [list(x) for x in warm_rows] + [list(x) for x in rows]
+        if len(got1) == len(full):
+            full = [r if not S.rows_differ([g], [[float(v) for v in r]]) else f for g, r, f in zip(got1, raw, full)]
         d = S.rows_differ(got1, [[float(v) for v in x] for x in full])
         if d:
             out['viols'].append(Violation('stored-1m-differs-from-input', {'sim': sim}, ident, '%s 1m store vs (gap-normalised) input: %s' % (sym, d)).to_json())
